@@ -17,6 +17,13 @@ CHECKS = {
        'cells were exhausted and which only searched within the time budget.',
   design_ref='DESIGN.md §4 C02',
   technique='CrossHair symbolic execution of real code + z3 (unbounded ints), reference An+B oracle, replay'),
+ 'C18': dict(
+  text='Symbolic model checking of the real Inputs validators with unbounded symbolic integers (days-in-month and '
+       'ISO weeks-in-year decided for every year >= 1), of parse_value on strings assembled from symbolic digits and on '
+       'arbitrary short strings over the microsyntax alphabet, and of :in-range/:out-of-range ordering on a one-input '
+       'tree with symbolic min/max/value. Exhausted cells and budget-limited cells are listed separately.',
+  design_ref='DESIGN.md §4 C18',
+  technique='CrossHair symbolic execution of real code + z3 (unbounded ints, symbolic strings), reference calendar oracle, replay'),
 }
 
 NOT_APPLICABLE = {
